@@ -600,6 +600,7 @@ func (h *httpRun) batchSubscribe() {
 		}
 	}
 	h.rnd.Shuffle(len(pool), func(i, j int) { pool[i], pool[j] = pool[j], pool[i] })
+	batchNo := 0
 	for i := 0; i+1 < len(pool) && !h.S.dead; {
 		n := 2 + h.rnd.Intn(9)
 		if i+n > len(pool) {
@@ -625,8 +626,21 @@ func (h *httpRun) batchSubscribe() {
 					pres[k].wrote = true
 				}
 			}
+			// entries for ids the accessory does not have, in front of and between the real ones (every third batch): they are
+			// answered with a status of their own and must not move what belongs to the entries after them
+			if batchNo%3 == 2 && (k == 0 || h.rnd.Intn(3) == 0) {
+				for u := 0; u <= h.rnd.Intn(2); u++ {
+					ghost := refctl.CharValue{AID: e.aid, IID: 900000 + uint64(h.rnd.Intn(1000)), Ev: &t}
+					if h.rnd.Intn(2) == 0 {
+						ghost.AID = 77000 + uint64(h.rnd.Intn(100))
+					}
+					cvs = append(cvs, ghost)
+					r.Count("http_batch_entries_for_unknown_ids", 1)
+				}
+			}
 			cvs = append(cvs, cv)
 		}
+		batchNo++
 		body := refctl.PutBody(cvs...)
 		// other ways a controller may spell "events on": an accessory that takes one of them for a subscription must
 		// refuse it like "ev":true on a characteristic without ev; one that ignores it may answer anything; in no
@@ -856,6 +870,7 @@ func httpPath(r *vf.Run, subjects []subject) {
 	r.Floor("http: PUTs on characteristics without pw", int(r.Counter("http_puts_without_pw")), 100)
 	r.Floor("http: subscription attempts on characteristics without ev", int(r.Counter("http_subscription_attempts_without_ev")), 30)
 	r.Floor("http: fenced changes on characteristics without ev", int(r.Counter("http_fenced_changes_without_ev")), 30)
+	r.Floor("http: subscription batches with entries for unknown ids in between", int(r.Counter("http_batch_entries_for_unknown_ids")), 20)
 	r.Floor("http: positive control (a writable characteristic's callback fires)", int(r.Counter("http_control_writable_callback_fired")), 50)
 	r.Floor("http: positive control (a readable characteristic's value is seen in GET)", int(r.Counter("http_control_readable_value_seen")), 50)
 }
